@@ -891,6 +891,7 @@ func c07Dynblock(c *Ctx) {
 		attr      string
 		ours      bool
 		inherited bool
+		oursMay   bool
 		pos       token.Pos
 	}
 	var recs []rec
@@ -907,20 +908,12 @@ func c07Dynblock(c *Ctx) {
 			// origin attribute: constant key of a lookup on the trail of the appended traversal
 			attr := attrKeyOf(call.Call.Args[1])
 			r := rec{attr: attr, pos: call.Pos()}
-			// dominating filter tests
-			for d := b; d != nil; d = d.Idom() {
-				idom := d.Idom()
-				if idom == nil {
-					break
-				}
-				iff, ok := idom.Instrs[len(idom.Instrs)-1].(*ssa.If)
-				if !ok {
-					continue
-				}
-				ours, inh := condKinds(iff.Cond, map[ssa.Value]bool{})
-				r.ours = r.ours || ours
-				r.inherited = r.inherited || inh
-			}
+			// filter tests about the appended traversal: tested on every path to the append
+			// (must) and on some path (may); a nil iteration makes every filter vacuous
+			must, may := filterFacts(visit, b, appendedElem(call))
+			r.ours = must&1 != 0
+			r.inherited = must&2 != 0
+			r.oursMay = may&1 != 0
 			recs = append(recs, r)
 		}
 	}
@@ -949,14 +942,14 @@ func c07Dynblock(c *Ctx) {
 		got := [2]bool{r.ours, r.inherited}
 		msg := ""
 		switch {
-		case r.attr == "for_each" && r.ours:
+		case r.attr == "for_each" && r.oursMay:
 			msg = "references of for_each are filtered against the block's own iterator name, but for_each is evaluated in the enclosing scope: a variable with that name is required and not reported"
 		case !r.inherited:
 			msg = "references are not filtered against inherited iterators: iterator names are reported as required variables"
 		case w[0] && !r.ours:
 			msg = "references are not filtered against the block's own iterator: the iterator name is reported as a required variable"
 		}
-		c.Check(got == w, "dyn.filter", key, r.pos, "filters as the expansion binds", msg)
+		c.Check(got == w && !(r.attr == "for_each" && r.oursMay), "dyn.filter", key, r.pos, "filters as the expansion binds", msg)
 	}
 	c.Floor("dyn.filter appends", n, 3, "content attributes, for_each, labels")
 	// exprWrap.Variables vs iteration.EvalContext
@@ -1001,6 +994,145 @@ func c07Dynblock(c *Ctx) {
 	sort.Strings(fl)
 	c.Check(strings.Join(bn, ",") == strings.Join(fl, ","), "dyn.filter", "ext/dynblock.exprWrap.Variables:names", wv.Pos(), "filters "+strings.Join(fl, ","),
 		"exprWrap.Variables filters by {"+strings.Join(fl, ",")+"} but iteration.EvalContext binds {"+strings.Join(bn, ",")+"}")
+}
+
+const dynblockPath = modPath + "/ext/dynblock"
+
+// appendedElem: the single element appended by append(xs, elem).
+func appendedElem(call *ssa.Call) ssa.Value {
+	if sl, ok := call.Call.Args[1].(*ssa.Slice); ok {
+		if al, ok := sl.X.(*ssa.Alloc); ok {
+			if sts := storesInto(al); len(sts) == 1 {
+				return sts[0].Val
+			}
+		}
+	}
+	return nil
+}
+
+// filterFacts: which iterator filters (bit 1: own iterator name compared with RootName();
+// bit 2: membership in Inherited) have been applied to traversal T on every path (must) / some
+// path (may) from T's definition to block `at`. On the nil edge of a test of an *iteration
+// pointer every filter is vacuous (nothing to filter against).
+func filterFacts(fn *ssa.Function, at *ssa.BasicBlock, T ssa.Value) (must, may int) {
+	start := fn.Blocks[0]
+	if ins, ok := T.(ssa.Instruction); ok && ins.Block() != nil {
+		start = ins.Block()
+	}
+	about := func(cond ssa.Value) bool {
+		if T == nil {
+			return true
+		}
+		seen := map[ssa.Value]bool{}
+		var walk func(v ssa.Value, d int) bool
+		walk = func(v ssa.Value, d int) bool {
+			if v == nil || seen[v] || d > 12 {
+				return false
+			}
+			seen[v] = true
+			if v == T {
+				return true
+			}
+			switch x := v.(type) {
+			case *ssa.BinOp:
+				return walk(x.X, d+1) || walk(x.Y, d+1)
+			case *ssa.UnOp:
+				return walk(x.X, d+1)
+			case *ssa.Phi:
+				for _, e := range x.Edges {
+					if walk(e, d+1) {
+						return true
+					}
+				}
+			case *ssa.Extract:
+				return walk(x.Tuple, d+1)
+			case *ssa.Lookup:
+				return walk(x.Index, d+1)
+			case *ssa.Call:
+				for _, a := range x.Call.Args {
+					if walk(a, d+1) {
+						return true
+					}
+				}
+			}
+			return false
+		}
+		return walk(cond, 0)
+	}
+	gen := func(p *ssa.BasicBlock, succ int) int {
+		iff, ok := lastIf(p)
+		if !ok {
+			return 0
+		}
+		// nil test of an iteration pointer
+		if bo, ok := iff.Cond.(*ssa.BinOp); ok && (bo.Op == token.EQL || bo.Op == token.NEQ) {
+			for _, pr := range [][2]ssa.Value{{bo.X, bo.Y}, {bo.Y, bo.X}} {
+				if isNilConst(pr[1]) {
+					if pt, ok := pr[0].Type().(*types.Pointer); ok && isNamed(pt.Elem(), dynblockPath, "iteration") {
+						nilEdge := 0
+						if bo.Op == token.NEQ {
+							nilEdge = 1
+						}
+						if succ == nilEdge {
+							return 3
+						}
+						return 0
+					}
+				}
+			}
+		}
+		if !about(iff.Cond) {
+			return 0
+		}
+		o, i := condKinds(iff.Cond, map[ssa.Value]bool{})
+		g := 0
+		if o {
+			g |= 1
+		}
+		if i {
+			g |= 2
+		}
+		return g
+	}
+	reach := reachFrom(fn, start)
+	reach[start] = true
+	mustIn := map[*ssa.BasicBlock]int{}
+	mayIn := map[*ssa.BasicBlock]int{}
+	for b := range reach {
+		mustIn[b] = 3
+	}
+	mustIn[start] = 0
+	for changed := true; changed; {
+		changed = false
+		for _, b := range fn.Blocks {
+			if !reach[b] || b == start {
+				continue
+			}
+			m, y, any := 3, 0, false
+			for _, p := range b.Preds {
+				if !reach[p] {
+					continue
+				}
+				for k, su := range p.Succs {
+					if su != b {
+						continue
+					}
+					any = true
+					g := gen(p, k)
+					m &= mustIn[p] | g
+					y |= mayIn[p] | g
+				}
+			}
+			if !any {
+				m = 0
+			}
+			if m != mustIn[b] || y != mayIn[b] {
+				mustIn[b], mayIn[b] = m, y
+				changed = true
+			}
+		}
+	}
+	return mustIn[at], mayIn[at]
 }
 
 func sliceElem(t types.Type) types.Type {
